@@ -439,9 +439,14 @@ func isExportedEntry(f *ssa.Function) bool {
 }
 
 func callsTransitively(from, to *ssa.Function, d int) bool {
-	if d > 4 {
-		return true
+	return callsTrans(from, to, map[*ssa.Function]bool{})
+}
+
+func callsTrans(from, to *ssa.Function, seen map[*ssa.Function]bool) bool {
+	if seen[from] {
+		return false
 	}
+	seen[from] = true
 	for _, b := range from.Blocks {
 		for _, in := range b.Instrs {
 			if c, ok := in.(ssa.CallInstruction); ok {
@@ -449,7 +454,8 @@ func callsTransitively(from, to *ssa.Function, d int) bool {
 					if f == to {
 						return true
 					}
-					if f.Blocks != nil && f != from && callsTransitively(f, to, d+1) {
+					// only functions of the same module can call back into it
+					if f.Blocks != nil && f.Pkg != nil && to.Pkg != nil && strings.HasPrefix(f.Pkg.Pkg.Path(), RepoPath) && callsTrans(f, to, seen) {
 						return true
 					}
 				}
